@@ -15,15 +15,25 @@ class P(Property):
     extract_v = 'Extract/ExtractC18.v'
     driver_ml = 'C18_driver.ml'
     harness_bin = 'c18'
-    rule = ('dg.enc: stream ids 4k (k over 0..2^10 quick / 0..2^16 thorough, every varint form boundary 63/64, 16383/16384, '
-            '2^30-1/2^30, 2^60-1, seeded random k) x payloads of 0..1500 bytes split into 0..4 chunks x seeded consumption '
-            'patterns mixing chunk-bounded reads, raw advance(k), copy_to_bytes(k), get_u8, and final drains by chunks / copy_to_bytes(remaining()) (the call h3-quinn makes) / BytesMut::put, with has_remaining() checked against remaining() at every step; dg.dec: all byte strings of length 0..2, all forms at '
-            'every truncation, quarter ids around 2^60, seeded random strings of 3..9 bytes, and complete datagrams presented as non-contiguous buffers cut at every position (dg.decc). non-trivial = distinct cases in which '
-            'the payload is reached (dg.enc with a non-empty payload or dg.dec with a complete varint)')
+    rule = ('dg.enc: stream ids 4k x payloads x consumption patterns.  k: QUICK tier (what ./check and mutant_run use, seed 1) = every k in '
+            '0..2^10, every 61st k up to 2^16+1, every varint form boundary 63/64, 16383/16384, 2^30-1/2^30, 2^60-1 and 300 seeded random k '
+            '(6/14/30/60 bits); THOROUGH tier = every k in 0..2^16 plus 30000 random.  payloads: 0..9, 64, seeded random 0..1500 bytes in '
+            '0..4 chunks; deterministically every length 1461..1500 x each header size 1/2/4/8 (k = 5, 64+, 16384+, 2^30+) and 40 large '
+            'payloads (65..1500) behind a 1-byte header.  consumption: seeded mixes of chunk-bounded reads, raw advance(k), copy_to_bytes(k), '
+            'get_u8, then a final drain by chunks / copy_to_bytes(remaining()) (the call h3-quinn makes) / BytesMut::put, with '
+            'has_remaining() checked against remaining() at every step; stream ids not divisible by 4 must panic in Datagram::new.  '
+            'dg.tx: the same on a REAL h3 server connection over SimQuic: get_datagram_sender(4k).send_datagram(payload), observing the one '
+            'datagram the transport receives.  dg.dec: all byte strings of length 0..2, all forms at every truncation, quarter ids around '
+            '2^60, seeded random strings of 3..9 bytes, payload lengths 0..63 exhaustively and 64..1500 sampled; dg.decc: the same wire bytes '
+            'as non-contiguous buffers cut at every position (complete AND truncated varints, payloads up to 40 bytes).  dg.rx / dg.rxw: a QUIC '
+            'datagram arrives at a real h3 server connection (before / while read_datagram is polled) with the connection driver running: '
+            'what read_datagram returns and the code the transport is closed with.  non-trivial = distinct cases in which the payload is '
+            'reached (dg.enc/dg.tx with a non-empty payload, dg.dec/dg.rx with a complete varint)')
 
     def cases(self, tier, rng):
         out = []
         ks = set(range(0, 2 ** 10 if tier == 'quick' else 2 ** 16 + 1))
+        ks.update(range(2 ** 10, 2 ** 16 + 2, 61))     # quick tier: a thin but even cover of the 2- and 4-byte forms below 2^16
         for b in (63, 64, 16383, 16384, 2 ** 30 - 1, 2 ** 30, 2 ** 60 - 1):
             ks.add(b)
         for _ in range(300 if tier == 'quick' else 30000):
@@ -72,7 +82,44 @@ class P(Property):
                 # the exact call h3-quinn's send_datagram makes, and BytesMut::put, on the untouched buffer
                 out.append('dg.enc %d %s - B' % (sid, pl))
                 out.append('dg.enc %d %s - P' % (sid, pl))
+        def chunked(payload, parts):
+            if not payload:
+                return '-'
+            cuts = sorted(set(rng.randint(1, len(payload)) for _ in range(parts - 1)) - {len(payload)})
+            cs, prev = [], 0
+            for c in cuts + [len(payload)]:
+                cs.append(payload[prev:c])
+                prev = c
+            return '.'.join(c.hex() for c in cs if c)
+        hdr_k = {1: 5, 2: 64 + 7, 4: 16384 + 9, 8: 2 ** 30 + 11}
+        # every payload length 1461..1500 against every header size (1500 is the quantifier's upper end)
+        for n in range(1461, 1501):
+            for l in (1, 2, 4, 8):
+                k = hdr_k[l] if n % 2 else {1: 63, 2: 16383, 4: 2 ** 30 - 1, 8: 2 ** 60 - 1}[l]
+                pl = chunked(rb(rng, n), 1 + (n + l) % 4)
+                out.append('dg.enc %d %s - %s' % (4 * k, pl, 'dBP'[(n + l) % 3]))
+                if n >= 1497 or n % 8 == 0:
+                    out.append('dg.enc %d %s a%d,b%d,c9,g %s' % (4 * k, pl, l - 1, 700 + n % 50, 'BPd'[(n + l) % 3]))
+                    out.append('dg.tx %d %s' % (4 * k, pl))
+        # the common stream ids (1-byte header) with large payloads
+        for i in range(40):
+            k = rng.choice([0, 1, 2, 3, 62, 63, rng.randint(0, 63)])
+            n = rng.choice([65, 100, 255, 256, 1200, 1350, 1472, 1473, rng.randint(65, 1500)])
+            pl = chunked(rb(rng, n), 1 + i % 4)
+            out.append('dg.enc %d %s %s %s' % (4 * k, pl, rng.choice(['-', 'a1', 'c1,b64', 'g,g,a%d' % (n // 2)]), 'dBP'[i % 3]))
+            out.append('dg.tx %d %s' % (4 * k, pl))
+        # Datagram::new: a stream id that is not a client-initiated bidirectional one must be refused (assert)
+        for sid in (1, 2, 3, 5, 6, 7, 9, 255, 257, 65534, 2 ** 32 + 1, 2 ** 62 - 1, 2 ** 62 - 2, 2 ** 62 - 3):
+            out.append('dg.enc %d %s - B' % (sid, rb(rng, sid % 3).hex() or '-'))
+            out.append('dg.tx %d %s' % (sid, rb(rng, sid % 5).hex() or '-'))
+        # send_datagram on a real connection: every form, small and mid payloads, chunked
+        tx_ks = list(range(0, 200)) + [63, 64, 16383, 16384, 2 ** 30 - 1, 2 ** 30, 2 ** 60 - 1] + \
+            [rng.getrandbits(rng.choice([6, 14, 30, 60])) for _ in range(150 if tier == 'quick' else 15000)]
+        for i, k in enumerate(tx_ks):
+            n = rng.choice([0, 1, 2, 3, 7, 8, 9, 64, rng.randint(0, 1500)]) if i % 8 == 0 else rng.choice([0, 1, 2, 5, 12])
+            out.append('dg.tx %d %s' % (4 * k, chunked(rb(rng, n), rng.randint(1, 4))))
         # decode
+        ndec0 = len(out)
         out.append('dg.dec -')
         for a in range(256):
             out.append('dg.dec %02x' % a)
@@ -92,6 +139,21 @@ class P(Property):
         for _ in range(60 if tier == 'quick' else 3000):
             x = rng.getrandbits(rng.choice([6, 14, 30, 60]))
             out.append('dg.dec ' + enc(x, 1 if x < 64 else 2 if x < 16384 else 4 if x < 2 ** 30 else 8).hex() + rb(rng, rng.choice([64, 300, 1200, 1500])).hex())
+        # payload lengths 0..63 exhaustively behind every header size, and a sample of everything up to 1500
+        for n in list(range(0, 64)) + [rng.randint(64, 1500) for _ in range(40 if tier == 'quick' else 1500)] + [1472, 1473, 1499, 1500]:
+            for l in (1, 2, 4, 8):
+                x = {1: 7, 2: 300, 4: 70000, 8: 2 ** 31}[l] if n % 2 else rng.getrandbits(8 * l - 2)
+                out.append('dg.dec ' + enc(x, l).hex() + rb(rng, n).hex())
+        # the arrival of the same bytes at a real connection (everything above except the exhaustive 2-byte sweep, of which
+        # every 7th string is taken); alternately before / while read_datagram is polled
+        rx, i = [], 0
+        for c in out[ndec0:]:
+            h = c.split()[1]
+            if len(h) == 4 and int(h, 16) % 7 != 0 and h[:2] not in ('40', '80', 'c0', 'ff'):
+                continue
+            i += 1
+            rx.append('dg.%s %s' % ('rxw' if i % 3 == 0 else 'rx', h))
+        out += rx
         # the same wire bytes as non-contiguous buffers, cut at every position
         for x in vals[:40 if tier == 'quick' else 2000]:
             for l in (1, 2, 4, 8):
@@ -101,7 +163,30 @@ class P(Property):
                         out.append('dg.decc %s.%s' % (e[:i].hex(), e[i:].hex()))
                         if i + 1 < len(e):
                             out.append('dg.decc %s.%s.%s' % (e[:i].hex(), e[i:i + 1].hex(), e[i + 1:].hex()))
+        # truncated varints in non-contiguous buffers (every truncation, every cut), and longer payloads
+        for x in vals[:13] + vals[13:13 + (12 if tier == 'quick' else 600)]:
+            for l in (2, 4, 8):
+                if x < 2 ** (8 * l - 2):
+                    full = enc(x, l)
+                    for t in range(2, l):
+                        e = full[:t]
+                        for i in range(1, len(e)):
+                            out.append('dg.decc %s.%s' % (e[:i].hex(), e[i:].hex()))
+                        out.append('dg.decc ' + '.'.join('%02x' % b for b in e))
+        for j, x in enumerate(vals[:13] + vals[13:13 + (8 if tier == 'quick' else 400)]):
+            for l in (1, 2, 4, 8):
+                if x < 2 ** (8 * l - 2):
+                    e = enc(x, l) + rb(rng, rng.choice([5, 9, 17, 40]))
+                    for i in range(1, len(e), 1 if len(e) < 24 else 3):
+                        out.append('dg.decc %s.%s' % (e[:i].hex(), e[i:].hex()))
+                    a = rng.randint(1, l)
+                    b2 = rng.randint(a + 1, len(e) - 1)
+                    out.append('dg.decc %s.%s.%s' % (e[:a].hex(), e[a:b2].hex(), e[b2:].hex()))
         return out
+
+    def canon(self, case, out):
+        # the text of a panic message is not constrained
+        return 'panic' if out.startswith('panic') else out
 
     def spec_ok(self, case, out, spec):
         if spec is None:
@@ -136,11 +221,41 @@ class P(Property):
                         return False
                     pos += len(tok) // 2
             return pos == len(flat) // 2
-        return spec_match(out, spec)
+        return spec_match(self.canon(case, out), spec)
+
+    def shrink_candidates(self, case):
+        w = case.split()
+        out = []
+        if w[0] in ('dg.enc', 'dg.tx'):
+            sid, pl = int(w[1]), w[2]
+            rest = w[3:]
+            flat = '' if pl == '-' else pl.replace('.', '')
+            n = len(flat) // 2
+
+            def mk(sid, flat, rest):
+                return ' '.join([w[0], str(sid), flat or '-'] + rest)
+            if w[0] == 'dg.enc' and rest and rest[0] != '-':
+                out.append(mk(sid, pl if pl != '-' else '', ['-'] + rest[1:]))
+            if '.' in pl:
+                out.append(mk(sid, flat, rest))
+            for m in (n // 2, n - 16, n - 1):
+                if 0 <= m < n:
+                    out.append(mk(sid, flat[:2 * m], rest))
+            if flat and flat != '00' * n:
+                out.append(mk(sid, '00' * n, rest))
+            for s2 in (0, 4, 8, 256, sid // 8 * 4):
+                if s2 < sid and s2 % 4 == sid % 4:
+                    out.append(mk(s2, flat, rest))
+        elif w[0] in ('dg.dec', 'dg.rx', 'dg.rxw') and w[1] != '-':
+            h = w[1]
+            for m in (len(h) // 4 * 2, len(h) - 2):
+                if 0 <= m < len(h):
+                    out.append('%s %s' % (w[0], h[:m] or '-'))
+        return [c for c in out if c != case]
 
     def nontrivial_key(self, case, impl_out):
         w = case.split()
-        if w[0] == 'dg.enc':
+        if w[0] in ('dg.enc', 'dg.tx'):
             return case if w[2] != '-' else None
         return case if impl_out.startswith('ok') else None
 
